@@ -9,10 +9,68 @@ import z3
 from vcgen.proxy import Unsupported
 
 
+def simp_under(body, var, lo, hi, facts):
+    """rewrite the if-then-else nodes of a summand whose condition is decided for every lo <= var < hi (under the path facts): the two summands agree on the range"""
+    sol = z3.Solver()
+    sol.set("rlimit", 2000000)
+    sol.add(*[f for f in facts if not z3.is_quantifier(f)])
+    sol.add(var >= lo, var < hi)
+    cache, memo = {}, {}
+
+    def occurs(t):
+        st, seen = [t], set()
+        while st:
+            u = st.pop()
+            if u.get_id() in seen:
+                continue
+            seen.add(u.get_id())
+            if z3.eq(u, var):
+                return True
+            st.extend(u.children())
+        return False
+
+    def decided(c):
+        k = c.get_id()
+        if k not in cache:
+            r = None
+            sol.push()
+            sol.add(z3.Not(c))
+            if sol.check() == z3.unsat:
+                r = True
+            sol.pop()
+            if r is None:
+                sol.push()
+                sol.add(c)
+                if sol.check() == z3.unsat:
+                    r = False
+                sol.pop()
+            cache[k] = (c, r)
+        return cache[k][1]
+
+    def walk(t):
+        k = t.get_id()
+        if k in memo:
+            return memo[k][1]
+        out = t
+        if z3.is_app(t) and not z3.is_quantifier(t) and t.num_args() > 0:
+            if t.decl().kind() == z3.Z3_OP_ITE:
+                c, a, b = t.children()
+                d = decided(c) if not any(z3.is_quantifier(x) for x in [c]) else None
+                out = walk(a) if d is True else (walk(b) if d is False else z3.If(c, walk(a), walk(b)))
+            else:
+                out = t.decl()(*[walk(x) for x in t.children()])
+        memo[k] = (t, out)
+        return out
+    return z3.simplify(walk(body))
+
+
 class Translator:
-    def __init__(self, complex_entries, decide=None):
+    def __init__(self, complex_entries, decide=None, facts=None):
         self.cplx = complex_entries
         self.decide = decide          # callback: z3 Bool -> True / False / None (decided under the path facts)
+        self.facts = facts            # path facts (z3): lets the summand of an outermost sum be simplified on its range
+        self._zc = 0
+        self._ranges = []
         self.syms = {}
         self.funcs = {}
         self.cache = {}
@@ -32,7 +90,7 @@ class Translator:
         return sp.conjugate(x) if self.cplx else x
 
     def tr(self, t, bound=()):
-        key = (t.get_id(), tuple(b.name for b in bound))
+        key = (t.get_id(), tuple((b.name, getattr(b, "dummy_index", 0)) for b in bound), tuple(sorted((k_[0], getattr(v_, "dummy_index", 0)) for k_, v_ in self.syms.items() if k_[0].startswith("sumvar"))))
         hit = self.cache.get(key)
         if hit is not None:
             return hit[1]
@@ -125,8 +183,21 @@ class Translator:
                 lam = ch[2]
                 if not z3.is_quantifier(lam):
                     raise Unsupported("sumf over a non-lambda")
-                v = sp.Symbol(f"s{len(bound)}", integer=True)      # canonical name per nesting depth: equal sums are structurally equal
-                body = self.tr(lam.body(), bound + (v,))
+                v = sp.Dummy("s", integer=True)      # a fresh bound variable per sum (the contraction engine renames apart and canonicalises at the end)
+                if bound or self.facts is None:
+                    body = self.tr(lam.body(), bound + (v,))
+                else:
+                    # outermost sum: conditions of the summand that hold throughout the range are decided first (sum congruence on the range)
+                    self._zc += 1
+                    zc = z3.Int(f"sumvar{self._zc}")
+                    zb = z3.substitute_vars(lam.body(), zc)
+                    zb = simp_under(zb, zc, ch[0], ch[1], list(self.facts) + self._ranges)
+                    self.syms[(zc.decl().name(), True)] = v
+                    self._ranges += [zc >= ch[0], zc < ch[1]]         # the summand of a nested sum may be simplified on the enclosing ranges as well
+                    try:
+                        body = self.tr(zb, bound)
+                    finally:
+                        del self._ranges[-2:]
                 return sp.Sum(body, (v, self.tr(ch[0], bound), self.tr(ch[1], bound) - 1))
             return self.fn(nm)(*[self.tr(c, bound) for c in ch])
         raise Unsupported(f"operator {t.decl()} in a sum-algebra obligation")
@@ -350,3 +421,193 @@ def collapse_deltas(e, known_zero=(), in_range=None):
             changed = True
             break
     return normal(e)
+
+
+# ------------------------------------------------------------------------------------------------ prenex form and contraction
+def _pull(term):
+    """one product -> list of (limits, factors) with every top-level Sum factor opened (bound variables renamed apart)"""
+    out = [([], [])]
+    facs = []
+    for fac in sp.Mul.make_args(term):
+        if isinstance(fac, sp.Pow) and isinstance(fac.base, sp.Sum) and fac.exp.is_Integer and fac.exp > 0:
+            facs += [fac.base] * int(fac.exp)          # (sum f)^k: k independent copies (each gets its own bound variables below)
+        else:
+            facs.append(fac)
+    for fac in facs:
+        opened = None
+        if isinstance(fac, sp.Sum):
+            f = fac.function
+            lims = []
+            for (v, lo, hi) in fac.limits:
+                nv = sp.Dummy("b", integer=True)
+                f = f.xreplace({v: nv})
+                lims.append((nv, lo, hi))
+            opened = []
+            for sub in sp.Add.make_args(sp.expand(f)):
+                for (l2, f2) in _pull(sub):
+                    opened.append((lims + l2, f2))
+        if opened is None:
+            out = [(l_, f_ + [fac]) for (l_, f_) in out]
+        else:
+            out = [(l_ + l2, f_ + f2) for (l_, f_) in out for (l2, f2) in opened]
+    return out
+
+
+def prenex(e):
+    """e -> list of terms (limits, factors): sum over all bound variables of a product of factors none of which is a Sum"""
+    terms = []
+    for term in sp.Add.make_args(sp.expand(e)):
+        terms += _pull(term)
+    return terms
+
+
+def _unsquare(factors):
+    out = []
+    for x in factors:
+        if isinstance(x, sp.Pow) and x.exp.is_Integer and x.exp > 1 and not isinstance(x.base, (sp.Symbol, sp.Number)):
+            out += [x.base] * int(x.exp)
+        else:
+            out.append(x)
+    return out
+
+
+def contract(e, rules, distinct=(), max_rounds=40):
+    """Tensor-style contraction of finite sums.  Every term is brought to prenex form; then, repeatedly,
+         * a bound variable that occurs in no factor contributes the number of its values,
+         * delta(v, X) with v bound (X free of v): v := X everywhere, the sum over v disappears  (X inside the range: side condition of the caller),
+         * delta(X, X) = 1, delta(X, Y) = 0 for X - Y a non-zero number or (X, Y) listed in `distinct`,
+         * a rule rewrites the factors that contain a bound variable v (all of them, and only them) into factors free of v: rule(v, lo, hi, factors) -> list | None.
+       Returns the resulting expression (residual sums rebuilt)."""
+    def kill(d):
+        a_, b_ = d.args
+        df = sp.simplify(a_ - b_)
+        if df == 0:
+            return sp.Integer(1)
+        if df.is_number:
+            return sp.Integer(0)
+        for x, y in distinct:
+            dd = sp.simplify(x - y)
+            if sp.simplify(df - dd) == 0 or sp.simplify(df + dd) == 0:
+                return sp.Integer(0)
+        return d
+    total = sp.Integer(0)
+    work = prenex(e)
+    rounds = 0
+    while work:
+        limits, factors = work.pop()
+        rounds += 1
+        if rounds > 4000:
+            raise Unsupported("contraction does not terminate")
+        factors = [x.replace(lambda y: isinstance(y, sp.KroneckerDelta), kill) for x in _unsquare(factors)]
+        prod = sp.expand(sp.Mul(*factors))
+        if prod == 0:
+            continue
+        if isinstance(prod, sp.Add) or any(isinstance(f_, sp.Sum) for f_ in sp.Mul.make_args(prod)):
+            for sub in sp.Add.make_args(prod):
+                for (l2, f2) in _pull(sub):
+                    work.append((limits + l2, f2))
+            continue
+        factors = _unsquare(list(sp.Mul.make_args(prod)))
+        progressed = False
+        for (v, lo, hi) in list(limits):
+            fv = [x for x in factors if x.has(v)]
+            if not fv:
+                limits = [l_ for l_ in limits if l_[0] != v]
+                factors.append(hi - lo + 1)
+                progressed = True
+                break
+            dl = [x for x in fv if isinstance(x, sp.KroneckerDelta) and (x.args[0] == v or x.args[1] == v)]
+            dl = [x for x in dl if not (x.args[1] if x.args[0] == v else x.args[0]).has(v)]
+            if dl:
+                d = dl[0]
+                other = d.args[1] if d.args[0] == v else d.args[0]
+                rest = list(factors)
+                rest.remove(d)
+                factors = [x.xreplace({v: other}) for x in rest]
+                limits = [(x, l_.xreplace({v: other}), h_.xreplace({v: other})) for (x, l_, h_) in limits if x != v]
+                progressed = True
+                break
+            for rule in rules:
+                rep = rule(v, lo, hi, fv)
+                if rep is not None:
+                    rest = list(factors)
+                    for x in fv:
+                        rest.remove(x)
+                    factors = rest + list(rep)
+                    limits = [l_ for l_ in limits if l_[0] != v]
+                    progressed = True
+                    break
+            if progressed:
+                break
+        if progressed:
+            work.append((limits, factors))
+            continue
+        body = sp.Mul(*factors)
+        total += sp.Sum(body, *[(v, lo, hi) for (v, lo, hi) in limits]) if limits else body
+    return total
+
+
+def canon_multi(e):
+    """canonical names for the bound variables of residual (multi-limit) sums: by order of first occurrence in the printed summand"""
+    def fix(s_):
+        f = s_.function
+        names = {}
+        order = sorted(s_.limits, key=lambda l_: (str(l_[1]), str(l_[2]), str(f).find(str(l_[0]))))
+        new_f, lims = f, []
+        h_ = _height(f)
+        for k_, (v, lo, hi) in enumerate(order):
+            nv = sp.Symbol(f"t{k_}" if h_ == 0 else f"t{h_}_{k_}", integer=True)      # names depend on the nesting height: an enclosing sum cannot capture
+            new_f = new_f.xreplace({v: nv})
+            lims.append((nv, lo, hi))
+        return sp.Sum(new_f, *lims)
+    return e.replace(lambda x: isinstance(x, sp.Sum), fix)
+
+
+def zero_after(e, rules, distinct=()):
+    # sums closed inside a norm (rsqrt(sum ...)) are contracted first: the prenex form does not look inside function arguments
+    e = e.replace(lambda x: getattr(x, "func", None) == RS and x.args[0].has(sp.Sum), lambda x: RS(contract(x.args[0], rules, distinct)))
+    e = canon_multi(e)
+    r = canon_multi(contract(e, rules, distinct))
+    r = _squares(sp.expand(r))
+    if r == 0:
+        return True, r
+    if r.has(sp.KroneckerDelta):
+        r = sp.expand(delta_subst(r))
+    r = canon_multi(_squares(sp.expand(sp.factor_terms(r))))
+    try:
+        if r == 0 or sp.simplify(r) == 0:
+            return True, r
+    except Exception:
+        pass
+    return False, r
+
+
+def app_of(x, F_):
+    """(args, conjugated) if x is F_(...) or conjugate(F_(...)), else None"""
+    y = x.args[0] if isinstance(x, sp.conjugate) else x
+    return (y.args, isinstance(x, sp.conjugate)) if getattr(y, "func", None) == F_ else None
+
+
+def pair_rule(Fa, pos_a, Fb, pos_b, cplx, result):
+    """rule: the factors containing the bound variable v are exactly  conj(Fa(.. v at pos_a ..))  and  Fb(.. v at pos_b ..)  (no conjugate in the real case; when
+    Fa is Fb either one may carry the conjugate).  result(args_a, args_b) -> list of replacement factors, or None."""
+    def rule(v, lo, hi, fv):
+        if len(fv) != 2:
+            return None
+        for x, y in ((fv[0], fv[1]), (fv[1], fv[0])):
+            pa, pb = app_of(x, Fa), app_of(y, Fb)
+            if not (pa and pb):
+                continue
+            if cplx and not (pa[1] and not pb[1]):
+                continue
+            if not cplx and (pa[1] or pb[1]):
+                continue
+            if pa[0][pos_a] != v or pb[0][pos_b] != v:
+                continue
+            if any(a_.has(v) for k_, a_ in enumerate(pa[0]) if k_ != pos_a) or any(a_.has(v) for k_, a_ in enumerate(pb[0]) if k_ != pos_b):
+                continue
+            rep = result(pa[0], pb[0])
+            if rep is not None:
+                return rep
+        return None
+    return rule
